@@ -269,13 +269,25 @@ pub fn solve<F: Function>(
         //
         // TODO: improve exit criteria?
         let mut changed = false;
+        let mut step_sq = 0f32;
+        let mut cur_sq = 0f32;
         for gi in 0..solver.grad_index.len() {
             let prev = cur[gi];
             cur[gi] -= step[gi];
             changed |= prev != cur[gi];
+            step_sq += step[gi] * step[gi];
+            cur_sq += cur[gi] * cur[gi];
         }
+        // The per-variable test above never fires for an unknown whose
+        // solution is exactly zero: it is approached through ever-smaller
+        // steps, each of which still changes the value.  Also stop when the
+        // whole step is below floating-point resolution relative to the
+        // whole position (the classic `xtol` test).
+        let converged = step_sq.sqrt()
+            <= f32::EPSILON * (cur_sq.sqrt() + f32::EPSILON);
         err_buf[i % err_buf.len()] = err;
         if !changed
+            || converged
             || err == 0.0
             || damping == 0.0
             || err_buf.iter().all(|e| *e == err_buf[0])
